@@ -119,6 +119,10 @@ type ObsOpts struct {
 	KV, Structs bool
 	KVScans     bool // include RangeScan/PrefixScan lines
 	NoGetAll    bool
+	NoExpiry    bool // leave out the expiry instant of every live pair
+	// Strict: record every result exactly (error vs empty vs zero are different observations). Only for
+	// oracles that compare the implementation with itself at two moments (before Close / after Open).
+	Strict bool
 }
 
 // Observe performs the full observation in one read-only transaction.
@@ -134,6 +138,9 @@ func Observe(h *DBH, u *Universe, oo ObsOpts) *Observation {
 			}
 			for _, k := range u.KVK[b] {
 				add(fmt.Sprintf("kv %q get %q", b, k), Op{K: "get", B: S(b), Key: S(k)})
+				if !oo.NoExpiry {
+					add(fmt.Sprintf("kv %q expiry %q", b, k), Op{K: "expiry", B: S(b), Key: S(k)})
+				}
 			}
 			if oo.KVScans {
 				add(fmt.Sprintf("kv %q prefixscan \"\"", b), Op{K: "prefixscan", B: S(b), Key: "", I: 0, Lim: -1})
@@ -157,6 +164,7 @@ func Observe(h *DBH, u *Universe, oo ObsOpts) *Observation {
 			for _, k := range u.SK[b] {
 				add(fmt.Sprintf("s %q %q smembers", b, k), Op{K: "smembers", B: S(b), Key: S(k)})
 				add(fmt.Sprintf("s %q %q scard", b, k), Op{K: "scard", B: S(b), Key: S(k)})
+				add(fmt.Sprintf("s %q %q shaskey", b, k), Op{K: "shaskey", B: S(b), Key: S(k)})
 			}
 		}
 		for _, b := range u.ZB {
@@ -182,7 +190,11 @@ func Observe(h *DBH, u *Universe, oo ObsOpts) *Observation {
 		if r.Panic != "" && o.Panic == "" {
 			o.Panic = r.Panic
 		}
-		o.Lines = append(o.Lines, labels[i]+" => "+soft(r))
+		if oo.Strict {
+			o.Lines = append(o.Lines, labels[i]+" => "+r.String())
+		} else {
+			o.Lines = append(o.Lines, labels[i]+" => "+soft(r))
+		}
 	}
 	return o
 }
